@@ -52,6 +52,11 @@ type State struct {
 	NoReg   bool   // don't use registers.
 	// Current file being processed (TODO: use it to have parsing errors showing as filename:line...)
 	CurrentFile string
+
+	// Function calls swap Out for a capture buffer (memoization of output); if a panic unwinds through
+	// them, Reset() must put back the writer that was in place before the outermost call.
+	callDepth int
+	callerOut io.Writer
 }
 
 func NewState() *State {
@@ -87,6 +92,11 @@ func NewBlankState() *State {
 func (s *State) Reset() {
 	s.env = s.rootEnv
 	s.depth = 0
+	if s.callDepth > 0 {
+		s.Out = s.callerOut
+		s.callDepth = 0
+	}
+	s.callerOut = nil
 }
 
 // RegisterTrie sets up the Trie to record all top level ids and functions.
